@@ -139,6 +139,4 @@ def run(tier, seed):
 
 
 def replay(path):
-    d = json.load(open(path))
-    print(json.dumps(d["violations"][:3], indent=1)[:3000])
-    return 1
+    return C.generic_replay(path)
